@@ -38,8 +38,9 @@ Fixpoint chi_lookup (tabs : list (N * list N)) (seed : N) (i : nat) : N :=
 (* flips grouped by column once; E col row = parity of the number of (col,row) entries *)
 Definition flip_table (fl : list (nat * nat)) : list (list nat) :=
   map (fun j => map snd (filter (fun p => Nat.eqb (fst p) j) fl)) (seq 0 K).
-Definition flip_lookup (tab : list (list nat)) (col row : nat) : bool :=
-  fold_right (fun r acc => xorb (Nat.eqb r row) acc) false (nth col tab []).
+Definition flip_lookup (tab : list (list nat)) (col : nat) : nat -> bool :=
+  let rows := nth col tab [] in            (* looked up once per column *)
+  fun row => fold_right (fun r acc => xorb (Nat.eqb r row) acc) false rows.
 
 Definition flips_of_sx (s : sx) : list (nat * nat) :=
   map (fun p => (getnat (nthx 0 p), getnat (nthx 1 p))) (getL s).
